@@ -190,6 +190,12 @@ func parseMsg1(data []byte) (headerHash types.OpaqueHash, tranche uint8, announc
 	}
 	offset += n
 
+	// every entry takes U16Size+HashSize octets of the message: a larger count is malformed
+	// (and must not size the allocation below)
+	if count > uint64(len(data)-offset)/uint64(U16Size+HashSize) {
+		return headerHash, tranche, announcement, consumed, fmt.Errorf("work reports count %d exceeds message size", count)
+	}
+
 	workReports := make([]WorkReportEntry, count)
 	for i := uint64(0); i < count; i++ {
 		if offset+U16Size+HashSize > len(data) {
@@ -240,6 +246,11 @@ func parseMsg2(data []byte, tranche uint8, workReportsCount int) (*CE144Evidence
 		}
 		offset += n
 
+		// every no-show takes at least U16Size+1 octets of the message
+		if nsCount > uint64(len(data)-offset)/uint64(U16Size+1) {
+			return nil, fmt.Errorf("no-shows count %d for work-report %d exceeds message size", nsCount, i)
+		}
+
 		noShows := make([]NoShow, nsCount)
 		for j := uint64(0); j < nsCount; j++ {
 			if offset+U16Size > len(data) {
@@ -254,7 +265,7 @@ func parseMsg2(data []byte, tranche uint8, workReportsCount int) (*CE144Evidence
 			}
 			offset += n
 
-			if offset+int(prevAnnLen) > len(data) {
+			if prevAnnLen > uint64(len(data)-offset) {
 				return nil, fmt.Errorf("insufficient data for previous announcement for no-show %d of work-report %d", j, i)
 			}
 			prevAnn := make([]byte, prevAnnLen)
